@@ -234,6 +234,13 @@ class AstToSqlVisitor(visitor.NodeVisitor):
 
     def visit_Compare(self, node: ast.Compare) -> str:
         ":meta private:"
+        if isinstance(node.left, ast.Null) and isinstance(
+            node.comparator, (ast.Eq, ast.NotEq)
+        ):
+            # `null eq x` is the same test as `x eq null`: render it as `x IS [NOT] NULL`
+            # too (`NULL = x` is never true in SQL).
+            node = ast.Compare(node.comparator, node.right, node.left)
+
         # In case of a subexpression (boolean logic, a negation, another comparison
         # or a predicate such as LIKE), wrap it in parentheses
         left = self._visit_operand(node.left, _PREC_COMPARISON, or_equal=True)
